@@ -7,6 +7,7 @@ import (
 	"path/filepath"
 	"sort"
 	"strings"
+	"time"
 
 	"github.com/spf13/afero"
 
@@ -289,6 +290,34 @@ func c16WalkHistory() string {
 		}
 		if got != want {
 			return fmt.Sprintf("fail: walking %s of a tree with a history: afero visits [%s], filepath.Walk visits [%s]", root, got, want)
+		}
+	}
+	// the same tree behind a cache that has already served one file (its directories exist in the cache layer by now),
+	// and behind a union whose overlay holds one file: a directory is listed as the union of both layers
+	for _, hl := range []struct {
+		how string
+		fs  afero.Fs
+	}{{"a cache", afero.NewCacheOnReadFs(mem, afero.NewMemMapFs(), 0)}, {"a cache with an hour", afero.NewCacheOnReadFs(mem, afero.NewMemMapFs(), time.Hour)},
+		{"a union", afero.NewCopyOnWriteFs(afero.NewReadOnlyFs(mem), afero.NewMemMapFs())}} {
+		if _, err := afero.ReadFile(hl.fs, "/b/moved/new"); err != nil {
+			return "fail: set-up: " + err.Error()
+		}
+		if hl.how == "a union" {
+			hl.fs.Chmod("/b/moved/new", 0o600) // copies the file up
+		}
+		for _, root := range []string{"/", "/b", "/b/moved"} {
+			got := collect(func(r string, fn filepath.WalkFunc) error { return afero.Walk(hl.fs, r, fn) }, root, "")
+			want := collect(func(r string, fn filepath.WalkFunc) error { return afero.Walk(mem, r, fn) }, root, "")
+			if got != want {
+				return fmt.Sprintf("fail: walking %s through %s: [%s]; the tree itself: [%s]", root, hl.how, got, want)
+			}
+		}
+		for _, pat := range []string{"/b/*", "/b/*/*", "/*/moved/*"} {
+			got, _ := afero.Glob(hl.fs, pat)
+			want, _ := afero.Glob(mem, pat)
+			if strings.Join(got, " ") != strings.Join(want, " ") {
+				return fmt.Sprintf("fail: Glob(%s) through %s gives %v, the tree itself %v", pat, hl.how, got, want)
+			}
 		}
 	}
 	for _, pat := range []string{"/b/*", "/b/*/*", "/*/moved/*", "/b/g*", "/a/*", "/b/moved/[a-z]*"} {
